@@ -173,6 +173,7 @@ def main_case(rng, root):
     lines.append("")
     inl = ["name main", "version 1.0", ""]
     pool = [0, 1, 2, 3, 4, 5, 6, 7, 8, 9]
+    prev_kw = {}
     for u in used:
         su = subs[u]
         for _ in range(rng.randint(1, 3)):
@@ -181,7 +182,11 @@ def main_case(rng, root):
                 # the program applied to its OWN modes, in every order (increasing, reversed, the iteration order of the set, shuffled)
                 own = sorted(su.modes)
                 cm = rng.choice([own, own[::-1], list(set(own)), rng.sample(own, len(own))])
-            kw = {p: rng.choice([0.5, 1.25, 2, 7]) for p in su.params}
+            kw = {p: rng.choice([0.5, 1.25, 2, 7, 1, 1.0, 2.0, 0.0, 0]) for p in su.params}
+            if prev_kw.get(u) and set(prev_kw[u]) == set(kw) and rng.random() < 0.5:
+                # the same call again with values that Python calls equal but that are other Blackbird values (1 / 1.0, 0 / 0.0)
+                kw = {p: (float(v) if isinstance(v, int) else (int(v) if float(v).is_integer() else v)) for p, v in prev_kw[u].items()}
+            prev_kw[u] = dict(kw)
             kws = ", ".join("%s=%s" % (k, val(v)) for k, v in kw.items())
             lines.append("%s%s | %s" % (u, "(%s)" % kws if kw else "", "[%s]" % ", ".join(map(str, cm))))
             for text, ms in inline(su, subs, cm, {k: val(v) for k, v in kw.items()}):
@@ -206,6 +211,21 @@ def ops_digest(p):
     for o in p.operations:
         args = [complex(a) if not isinstance(a, (str, bool)) else a for a in o.get("args", [])]
         out.append((o["op"], args, sorted((k, complex(v) if not isinstance(v, (str, bool, list)) else repr(v)) for k, v in o.get("kwargs", {}).items()), [int(m) for m in o["modes"]]))
+    return out
+
+
+def kinds_digest(p):
+    """numeric kind (int / float / complex) of every argument: inlining and calling must agree on these too
+    (1, 1.0 and True are different Blackbird values although Python calls them equal)"""
+    import math
+
+    import roundtrip
+    out = []
+    for o in p.operations:
+        row = []
+        for a in list(o.get("args", [])) + [v for _, v in sorted(o.get("kwargs", {}).items())]:
+            row.append(roundtrip.kind(a))      # (signs of computed zeros legitimately differ between numpy and the lambdified function)
+        out.append(row)
     return out
 
 
@@ -301,6 +321,11 @@ def run(tier, seed):
                         msg = "calling included programs differs from inlining them at operation %d: %s vs %s" % (k, digests[0][k] if k < len(digests[0]) else None, din[k] if k < len(din) else None)
                     elif any(not close_digest(digests[0], d) for d in digests[1:]):
                         msg = "the loaded program depends on the process working directory"
+                    elif kinds_digest(p) != kinds_digest(pin):
+                        ka, kb = kinds_digest(p), kinds_digest(pin)
+                        k = next(j for j, (a, b) in enumerate(zip(ka, kb)) if a != b)
+                        msg = "calling included programs differs from inlining them at operation %d in the kind of a number: %s vs %s (arguments %s / %s)" % (
+                            k, ka[k], kb[k], p.operations[k].get("args"), pin.operations[k].get("args"))
                 res.case(files[main_path] + "".join(sorted(files)), len(files) >= 2, {"main": files[main_path], "files": {k.replace(root, "<root>"): v for k, v in files.items() if k != main_path}} if len(res.samples) < 2 else None)
                 res.count("layout:%d-files" % len(files))
                 if msg:
